@@ -4325,3 +4325,89 @@ func E4SwallowedGlueStops(c *core.Ctx, r *core.Report) {
 	r.Count("E4.swallowed-glue-loops", n)
 	r.Floor("E4.swallowed-glue-loops", 1)
 }
+
+// E4FeasibleWindow: a break is a candidate exactly when its line's ratio lies in [-1, tolerance].
+func E4FeasibleWindow(c *core.Ctx, r *core.Report) {
+	r.Rule("E4.feasible-window", "a break is feasible when the line it ends can be set within its glue: −1 ≤ ratio ≤ tolerance, the ratio being the one computed for that break (hyphen width included). In mainLoop the condition under which demerits are computed (the `if` whose body reads DemeritsLine) has two conjuncts on the variable assigned from computeAdjustmentRatio: a lower bound against the constant −1 and an upper bound. A flag in their place is not the same thing: `tooLong` is re-decided for a penalty with a width (whether the node may stay active for later breaks, which do not include that width), so `!tooLong` admits a hyphen break whose own line has ratio −1.25")
+	p := c.MustPkg("text")
+	info := p.TypesInfo
+	fd := core.MustFuncDecl(p, "linebreaker.mainLoop")
+	r.Func("text.linebreaker.mainLoop")
+	var ratio types.Object
+	ast.Inspect(fd.Body, func(m ast.Node) bool {
+		as, ok := m.(*ast.AssignStmt)
+		if !ok || len(as.Lhs) != 1 || len(as.Rhs) != 1 {
+			return true
+		}
+		if ce, ok := core.Unparen(as.Rhs[0]).(*ast.CallExpr); ok {
+			if f := core.CalleeOf(info, ce); f != nil && f.Name() == "computeAdjustmentRatio" {
+				if id, ok := as.Lhs[0].(*ast.Ident); ok {
+					ratio = core.ObjOf(info, id)
+				}
+			}
+		}
+		return true
+	})
+	n := 0
+	isRatio := func(e ast.Expr) bool {
+		id, ok := core.Unparen(e).(*ast.Ident)
+		return ok && ratio != nil && core.ObjOf(info, id) == ratio
+	}
+	ast.Inspect(fd.Body, func(m ast.Node) bool {
+		is, ok := m.(*ast.IfStmt)
+		if !ok {
+			return true
+		}
+		reads := false
+		for _, st := range is.Body.List {
+			ast.Inspect(st, func(q ast.Node) bool {
+				if id, ok := q.(*ast.Ident); ok {
+					if v, ok := info.Uses[id].(*types.Var); ok && v.Parent() == p.Types.Scope() && v.Name() == "DemeritsLine" {
+						reads = true
+					}
+				}
+				return true
+			})
+		}
+		if !reads {
+			return true
+		}
+		n++
+		key := fmt.Sprintf("text.linebreaker.mainLoop|feasibility test #%d bounds the break's own ratio on both sides", n)
+		lower, upper := false, false
+		for _, t := range andTerms(is.Cond) {
+			be, ok := t.(*ast.BinaryExpr)
+			if !ok {
+				continue
+			}
+			minus1 := func(e ast.Expr) bool {
+				v := core.ConstVal(info, e)
+				if v == nil {
+					return false
+				}
+				f, _ := constant.Float64Val(constant.ToFloat(v))
+				return f == -1
+			}
+			switch {
+			case (be.Op == token.LEQ && minus1(be.X) && isRatio(be.Y)) || (be.Op == token.GEQ && isRatio(be.X) && minus1(be.Y)):
+				lower = true
+			case (be.Op == token.LEQ || be.Op == token.LSS) && isRatio(be.X) && !minus1(be.Y):
+				upper = true
+			case (be.Op == token.GEQ || be.Op == token.GTR) && isRatio(be.Y) && !minus1(be.X):
+				upper = true
+			}
+		}
+		if lower && upper {
+			r.OK("E4.feasible-window", key, c.Pos(is.Pos()), c.Src(is.Cond))
+		} else {
+			what := "a lower bound `-1 <= ratio`"
+			if lower {
+				what = "an upper bound on the ratio"
+			}
+			r.Fail("E4.feasible-window", key, c.Pos(is.Pos()), fmt.Sprintf("`%s` has no conjunct that is %s of this break's own ratio: a break whose line cannot be shrunk to fit is given finite demerits and can win", c.Src(is.Cond), what))
+		}
+		return false
+	})
+	r.Count("E4.feasibility-tests", n)
+	r.Floor("E4.feasibility-tests", 1)
+}
